@@ -105,7 +105,8 @@ func modelChecks(ctx *core.Ctx) []*selfTest {
 				ctx.ToolError("M1 self-test %s: %v", t.check, err)
 				return
 			}
-			st := &selfTest{Dev: "write_error_dropped", Check: t.check, Violated: r.Violated, OK: r.Violated == t.expect}
+			st := &selfTest{Dev: "write_error_dropped", Check: t.check, Violated: r.Violated,
+				OK: r.Violated == t.expect || (t.expect == "temporal" && strings.HasPrefix(r.Violated, "temporal"))}
 			st.Pid, st.Plan = counterexample(r.Trace)
 			if !st.OK {
 				ctx.ToolError("self-test: Dev={write_error_dropped} must violate %s but TLC reported %q - the check is vacuous", t.check, r.Violated)
